@@ -1,1 +1,2 @@
-import IdenaModel.Model.Store
+-- Root of the library: every Props module (and through them Model/Proofs) is built by `lake build`.
+import IdenaModel.Props.C13
